@@ -34,6 +34,10 @@ pub struct NetCase {
     pub depth: u8,
     /// also run the request list through the crate's own client
     pub use_client: bool,
+    /// late reader: after the list, SET one value of this size and pipeline this many GETs of it
+    /// before reading any reply (count, value length); 0 = off
+    #[serde(default)]
+    pub late_reader: (u8, u32),
 }
 
 pub fn net_key_strategy() -> BoxedStrategy<String> {
@@ -69,8 +73,9 @@ fn strategy(tier: Tier) -> BoxedStrategy<NetCase> {
         prop_oneof![Just(0u16), 1u16..300],
         1u8..=30,
         any::<bool>(),
+        prop_oneof![3 => Just((0u8, 0u32)), 1 => (40u8..140, prop_oneof![60_000u32..70_000, 8_192u32..9_000, 200_000u32..300_000])],
     )
-        .prop_map(|(max_file_size, keys, reqs, seg_mode, cuts, gap_us, depth, use_client)| NetCase {
+        .prop_map(|(max_file_size, keys, reqs, seg_mode, cuts, gap_us, depth, use_client, late_reader)| NetCase {
             max_file_size,
             keys,
             reqs,
@@ -79,6 +84,7 @@ fn strategy(tier: Tier) -> BoxedStrategy<NetCase> {
             gap_us,
             depth,
             use_client,
+            late_reader,
         })
         .boxed()
 }
@@ -150,6 +156,7 @@ fn exec(c: &NetCase, env: &Env) -> Outcome {
     let addr = srv.addr();
     let mut model: BTreeMap<Vec<u8>, Vec<u8>> = BTreeMap::new();
     let res = run_raw(c, &addr, &mut model, &mut out);
+    let res = res.and_then(|_| run_late_reader(c, &addr, &mut model, &mut out));
     let mut res = res.and_then(|_| if c.use_client { run_client(c, &addr, &mut model) } else { Ok(()) });
     if res.is_ok() {
         // the store read through a Handle equals the model
@@ -275,6 +282,46 @@ fn run_raw(c: &NetCase, addr: &str, model: &mut BTreeMap<Vec<u8>, Vec<u8>>, out:
     Ok(())
 }
 
+/// Deep pipelining with a client that reads late: the server's socket buffers fill up while it
+/// writes large replies, so its writes are accepted only in part.
+fn run_late_reader(c: &NetCase, addr: &str, model: &mut BTreeMap<Vec<u8>, Vec<u8>>, out: &mut Outcome) -> Result<(), (String, String)> {
+    let (count, len) = c.late_reader;
+    if count == 0 {
+        return Ok(());
+    }
+    out.label("late-reader");
+    let mut cl = RawClient::connect(addr).map_err(|e| ("connect-failed".to_string(), e))?;
+    let key = b"late-reader-key".to_vec();
+    let val = val_bytes(&ValSpec { len, seed: 7 }, 9999);
+    cl.send(&command(&[b"SET", &key, &val])).map_err(|e| ("send-failed".to_string(), e))?;
+    cl.read_replies(1, Duration::from_secs(10)).map_err(|e| ("timeout".to_string(), format!("late reader SET: {}", e)))?;
+    model.insert(key.clone(), val.clone());
+    let mut all = Vec::new();
+    for _ in 0..count {
+        all.extend_from_slice(&command(&[b"GET", &key]));
+    }
+    cl.send(&all).map_err(|e| ("send-failed".to_string(), e))?;
+    // let the replies pile up unread
+    std::thread::sleep(Duration::from_millis(30));
+    let got = cl.read_replies(count as usize, Duration::from_secs(20)).map_err(|e| {
+        if e.starts_with("timeout") {
+            ("timeout".to_string(), format!("late reader: {} pipelined GETs of a {} byte value: {}", count, len, e))
+        } else {
+            ("reply-stream-broken".to_string(), format!("late reader: {} pipelined GETs of a {} byte value: {}", count, len, e))
+        }
+    })?;
+    for (i, g) in got.iter().enumerate() {
+        if *g != F::Bulk(val.clone()) {
+            return Err((
+                "wrong-reply".into(),
+                format!("late reader: reply #{} of {} pipelined GETs of a {} byte value is {}", i, count, len, short_f(g)),
+            ));
+        }
+    }
+    cl.close();
+    Ok(())
+}
+
 fn run_client(c: &NetCase, addr: &str, model: &mut BTreeMap<Vec<u8>, Vec<u8>>) -> Result<(), (String, String)> {
     let rt = tokio::runtime::Builder::new_current_thread().enable_all().build().unwrap();
     let keys = c.keys.clone();
@@ -350,7 +397,7 @@ pub fn prop() -> Prop<NetCase> {
     Prop {
         id: "C06",
         level: "exploration",
-        rule: "Cases: a request list of 1-30 commands (quick; 60 thorough) over SET/GET/DEL with repeated and absent keys, keys arbitrary UTF-8 (empty, multi-byte, containing CR/LF/NUL), values arbitrary bytes up to 70 KiB (1 MiB thorough), a segmentation plan for the request bytes (all at once / one byte per segment / generated cut points / cuts at and next to every CRLF) sent with TCP_NODELAY and a generated gap, and a pipelining depth 1-30. A fresh store and an in-process server per case; a raw socket client sends the bytes, then (half of the cases) the crate's own net::Client runs the list again. Oracle: the received bytes equal, byte for byte, the concatenation of a reference encoder's encodings of the model's answers (+OK, bulk or $-1, :n with each key counted as it is deleted in turn), one reply per request in order, and afterwards the store read through a Handle equals the model. Non-trivial: at least one request split across segments and (pipelining depth >= 2 or a value containing CR, LF or NUL) and a multi-key DEL; distinct = distinct hash of the case.",
+        rule: "Cases: a request list of 1-30 commands (quick; 60 thorough) over SET/GET/DEL with repeated and absent keys, keys arbitrary UTF-8 (empty, multi-byte, containing CR/LF/NUL), values arbitrary bytes up to 70 KiB (1 MiB thorough), a segmentation plan for the request bytes (all at once / one byte per segment / generated cut points / cuts at and next to every CRLF) sent with TCP_NODELAY and a generated gap, and a pipelining depth 1-30. A fresh store and an in-process server per case; a raw socket client sends the bytes, then (a quarter of the cases) a late reader sets a 8-300 KB value and pipelines 40-139 GETs of it before reading anything, so that the server writes into full socket buffers, then (half of the cases) the crate's own net::Client runs the list again. Oracle: the received bytes equal, byte for byte, the concatenation of a reference encoder's encodings of the model's answers (+OK, bulk or $-1, :n with each key counted as it is deleted in turn), one reply per request in order, and afterwards the store read through a Handle equals the model. Non-trivial: at least one request split across segments and (pipelining depth >= 2 or a value containing CR, LF or NUL) and a multi-key DEL; distinct = distinct hash of the case.",
         assumptions: &[
             "only well-formed upper-case commands (the only ones the server accepts)",
             "TCP may coalesce segments; that affects sensitivity only (C08 controls chunking exactly)",
